@@ -7,11 +7,13 @@ mod runner;
 
 mod c01;
 mod c15;
+mod c20;
+mod evalkit;
 
 use runner::{Check, Tier};
 
 fn checks() -> Vec<&'static dyn Check> {
-    vec![&c01::C01, &c15::C15]
+    vec![&c01::C01, &c15::C15, &c20::C20]
 }
 
 fn usage() -> ! {
